@@ -1505,14 +1505,21 @@ void pivoted_LU(const DenseMatrix &A, DenseMatrix &L, DenseMatrix &U,
 void fraction_free_LDU(const DenseMatrix &A, DenseMatrix &L, DenseMatrix &D,
                        DenseMatrix &U)
 {
-    SYMENGINE_ASSERT(A.row_ == L.row_ and A.row_ == U.row_);
-    SYMENGINE_ASSERT(A.col_ == L.col_ and A.col_ == U.col_);
+    SYMENGINE_ASSERT(A.row_ == A.col_);
+    SYMENGINE_ASSERT(A.row_ == L.row_ and A.row_ == D.row_
+                     and A.row_ == U.row_);
+    SYMENGINE_ASSERT(A.col_ == L.col_ and A.col_ == D.col_
+                     and A.col_ == U.col_);
 
     unsigned row = A.row_, col = A.col_;
     unsigned i, j, k;
     RCP<const Basic> old = integer(1);
 
     U.m_ = A.m_;
+
+    // nothing to factorise; `row - 1` below would wrap around
+    if (row == 0)
+        return;
 
     // Initialize L
     for (i = 0; i < row; i++)
